@@ -219,7 +219,12 @@ func evalC07(c string) Result {
 		line := unhx(f[2])
 		before := preRecord(f[1])
 		rec := preRecord(f[1])
-		err := rec.UnmarshalText(bytes.Clone(line))
+		buf := bytes.Clone(line)
+		err := rec.UnmarshalText(buf)
+		// the buffer is the caller's: it is reused for the next line straight away
+		for i := range buf {
+			buf[i] = 'X'
+		}
 		direct, class := c07Oracle(string(line), before, rec, err)
 		return Result{Impl: showRecGo(rec, err), Direct: direct, Class: class}
 	case "C07.marshal":
